@@ -392,3 +392,164 @@ def gen_c20(rnd, n, thorough=False):
 
 
 GENS = {'C08': gen_c08, 'C09': gen_c09, 'C10': gen_c10, 'C11': gen_c11, 'C18': gen_c18, 'C20': gen_c20}
+
+
+def gen_c12(rnd, n, thorough=False):
+    """Every read through a directory and through the URL of a server serving it: the model predicts
+    one answer for both.  File names include characters that are special in a query string."""
+    cases = []
+    for c in range(n):
+        lname = rnd.pick(['two_1s', 'two_2s', 'three_2s', 'single', 'minute'])
+        layout = CLI_LAYOUTS[lname]
+        k = len(layout)
+        m, xff = rnd.pick(METHODS), rnd.pick(XFF_VALID)
+        names = rnd.sample(['a.wsp', 'cpu+io.wsp', 'rx&tx.wsp', 'p%41.wsp', 'q=1.wsp', 'sub/b.wsp', 'x~y.wsp', 'h#1.wsp'], 3)
+        lines = []
+        for nm in names:
+            lines += fill_ops(rnd, 's/i1/' + nm, layout, m, xff, density=rnd.pick([0.3, 0.9]))
+        lines += fill_ops(rnd, 's/i2/a.wsp', layout, m, xff, density=0.5)
+        for _ in range(rnd.randint(3, 6)):
+            nm = rnd.pick(names + ['nope.wsp', 'cpu io.wsp'.replace(' ', '_')])
+            wk, frm, until = window(rnd, layout)
+            arch = rnd.pick([-1, -1] + list(range(k)) + [k])
+            if nm not in names:
+                # a missing file together with a second, different failure is reported as whichever of
+                # the two concurrent reads fails first: not determined, not generated
+                arch = rnd.pick([-1] + list(range(k)))
+            kind = rnd.pick(['view', 'view', 'viewraw', 'sum', 'diffsrc', 'diffdest', 'copysrc', 'globdiff', 'http'])
+            for remote in (0, 1):
+                r = ' remote=%d' % remote
+                if kind == 'view':
+                    lines.append("cliview src=s:i1/%s from=%s until=%s archive=%d header=1%s" % (nm, frm, until, arch, r))
+                elif kind == 'viewraw':
+                    lines.append("cliviewraw src=s:i1/%s from=%s until=%s archive=%d header=1 sort=1%s" % (nm, frm, until, arch, r))
+                elif kind == 'sum':
+                    pat = rnd.pick(['*.wsp', 'a.wsp', 'zz*.wsp', '*+*.wsp'])
+                    item = rnd.pick(['i*', 'i1', 'zz*'])
+                    lines.append("clisum base=s item=%s src=%s from=%s until=%s archive=%d header=1%s" % (item, pat, frm, until, arch, r))
+                    lines[-1] = lines[-1]   # the same patterns both ways
+                    if remote == 0:
+                        keep = lines[-1]
+                    else:
+                        lines[-1] = keep.replace(' remote=0', ' remote=1')
+                elif kind == 'diffsrc':
+                    lines.append("clidiff src=s:i1/%s dest=s:i2/a.wsp from=%s until=%s archive=%d%s" % (nm, frm, until, arch, r))
+                elif kind == 'diffdest':
+                    lines.append("clidiff src=s:i2/a.wsp dest=s:i1/%s from=%s until=%s archive=%d remotedest=%d" % (nm, frm, until, arch, remote))
+                elif kind == 'copysrc':
+                    dn = 'd%d/%s' % (remote, nm.replace('/', '_'))
+                    lines.append("clicopy src=s:i1/%s dest=d%d:%s from=%s until=%s archive=%d copynan=1 m=%d x=%08x layout=%s%s" % (
+                        nm, remote, nm.replace('/', '_'), frm, until, arch, m, xff, lay_csv(layout), r))
+                    observe_all(lines, dn, layout)
+                elif kind == 'globdiff':
+                    pat = rnd.pick(['i1/*.wsp', 'i*/a.wsp', 'zz/*.wsp', 'i1/*+*.wsp'])
+                    if remote == 0:
+                        keep = "clidiff src=s:%s dest=s: from=%s until=%s archive=%d remote=0" % (pat, frm, until, arch)
+                        lines.append(keep)
+                    else:
+                        lines.append(keep.replace('dest=s:', 'dest=ROOT:').replace(' remote=0', ' remote=1'))
+                elif kind == 'http' and remote == 1:
+                    # a query with an explicit clock in the past: the server must use the client's clock
+                    past = rnd.randint(1, 40)
+                    lines.append("clihttpview file=s/i1/%s retention=%d from=%s until=%s now=@-%d" % (nm, arch, '@-%d' % (past + rnd.randint(0, 30)), '@-%d' % past, past))
+        cases.append({'id': 'c12-%d' % c, 'lines': lines, 'tags': {'layout': lname}})
+    return cases
+
+
+GENS['C12'] = gen_c12
+
+
+def gen_c16(rnd, n, thorough=False):
+    """The matrix subcommand x archive selection x window x fault; every cell is run through the real
+    command struct, the model predicts ok / diff / notexist / err (never panic) and the effect."""
+    cases = []
+    for c in range(n):
+        lname = rnd.pick(['two_1s', 'two_2s', 'three_2s', 'single', 'big', 'big'])
+        layout = CLI_LAYOUTS[lname]
+        k = len(layout)
+        m, xff = rnd.pick(METHODS), 0x3f000000
+        dense = lname == 'big'
+        lines = fill_ops(rnd, 's/i1/a.wsp', layout, m, xff, density=1.0 if dense else 0.5, inconsistent=not dense)
+        lines += fill_ops(rnd, 's/i1/b.wsp', layout, m, xff, density=0.5, inconsistent=False)
+        srckind = rnd.pick(['ok', 'ok', 'ok', 'missing', 'corrupt'])
+        src = {'ok': 'i1/a.wsp', 'missing': 'i1/none.wsp', 'corrupt': 'i1/zero.wsp'}[srckind]
+        if srckind == 'corrupt':
+            lines += ["create s/i1/zero.wsp %s m %d x %08x" % (fmt_layout(layout), m, xff), "drop s/i1/zero.wsp"]
+        destkind = rnd.pick(['missing', 'fresh', 'filled', 'mismatch'])
+        if destkind == 'fresh':
+            lines += ["create d/a.wsp %s m %d x %08x" % (fmt_layout(layout), m, xff), "sync d/a.wsp", "drop d/a.wsp"]
+        elif destkind == 'filled':
+            lines += fill_ops(rnd, 'd/a.wsp', layout, m, xff, density=0.4, inconsistent=False)
+        elif destkind == 'mismatch':
+            lines += fill_ops(rnd, 'd/a.wsp', [(s, nn + 2) for s, nn in layout], m, xff, density=0.4, inconsistent=False)
+        hist = {}
+        for _ in range(rnd.randint(4, 8)):
+            sub = rnd.pick(['view', 'viewraw', 'diff', 'copy', 'sum', 'sumcopy', 'sumdiff', 'generate'])
+            wk, frm, until = window(rnd, layout)
+            archsel = rnd.pick(['all', 'each', 'out_of_range'])
+            arch = {'all': -1, 'each': rnd.randrange(k), 'out_of_range': rnd.pick([k, k + 1, -2])}[archsel]
+            fault = rnd.pick(['none', 'none', 'textout_bad', 'textout_full', 'textout_discard'])
+            to = {'none': 'file', 'textout_bad': 'bad', 'textout_full': 'full', 'textout_discard': 'discard'}[fault]
+            if (srckind != 'ok' or destkind == 'mismatch') and archsel == 'out_of_range':
+                arch = -1            # two different failures of the two concurrent reads: not determined
+            if to == 'full' and sub in ('copy', 'sumcopy') and not (srckind != 'ok' or destkind == 'mismatch'):
+                # the report must be clearly shorter or clearly longer than the 4096-byte buffer
+                if dense and destkind in ('missing', 'fresh'):
+                    wk, frm, until, arch = 'default', '0', '0', -1        # hundreds of records
+                else:
+                    wk, frm, until = 'narrow', '@-3', '@-1'                # a handful of records
+            if to == 'full' and sub in ('view', 'viewraw', 'sum', 'diff', 'sumdiff', 'generate'):
+                pass
+            key = '%s/%s/%s' % (sub, archsel, fault)
+            hist[sub] = hist.get(sub, 0) + 1
+            t = " textout=%s" % to
+            if sub == 'view':
+                lines.append("cliview src=s:%s from=%s until=%s archive=%d header=1%s" % (src, frm, until, arch, t))
+            elif sub == 'viewraw':
+                lines.append("cliviewraw src=s:%s from=%s until=%s archive=%d header=1 sort=%d%s" % (src, frm, until, arch, rnd.pick([0, 1]), t))
+            elif sub == 'diff':
+                lines.append("clidiff src=s:%s dest=d:a.wsp from=%s until=%s archive=%d%s" % (src, frm, until, arch, t))
+            elif sub == 'copy':
+                lines += ["snap d/a.wsp", "clicopy src=s:%s dest=d:a.wsp from=%s until=%s archive=%d copynan=%d m=%d x=%08x layout=%s%s" % (
+                    src, frm, until, arch, rnd.pick([0, 1]), m, xff, lay_csv(layout), t), "disk d/a.wsp"]
+                observe_all(lines, 'd/a.wsp', layout)
+            elif sub == 'sum':
+                lines.append("clisum base=s item=%s src=%s from=%s until=%s archive=%d header=1%s" % (rnd.pick(['i1', 'i*', 'zz']), rnd.pick(['*.wsp', 'a.wsp', 'q*.wsp']), frm, until, arch, t))
+            elif sub == 'sumcopy':
+                lines += ["snap e/i1/sum.wsp", "clisumcopy base=s item=i1 src=[ab].wsp destbase=e dest=sum.wsp from=%s until=%s archive=%d m=%d x=%08x layout=%s%s" % (
+                    frm, until, arch, m, xff, lay_csv(layout), t), "disk e/i1/sum.wsp"]
+                observe_all(lines, 'e/i1/sum.wsp', layout)
+            elif sub == 'sumdiff':
+                lines.append("clisumdiff base=s item=i1 src=[ab].wsp destbase=e dest=sum.wsp from=%s until=%s archive=%d%s" % (frm, until, arch, t))
+            else:
+                gname = 'g/x%d.wsp' % len(lines)
+                glay = [(1, 6), (3, 4)] if to != 'full' else [(1, 300), (5, 100)]
+                lines.append("cligenerate dest=%s m=%d x=%08x layout=%s max=10 fill=1%s" % (gname, m, xff, lay_csv(glay), t))
+                lines.append("hdrof %s" % gname)
+        cases.append({'id': 'c16-%d' % c, 'lines': lines, 'tags': {'layout': lname, 'src': srckind, 'dest': destkind, 'sub': hist}})
+    return cases
+
+
+GENS['C16'] = gen_c16
+
+
+def gen_c05_cli(rnd, n, thorough=False):
+    """A CLI write that fails before its final Sync leaves an existing destination untouched:
+    copy / sum-copy whose (long) report cannot be written, or whose destination layout differs."""
+    cases = []
+    for c in range(n):
+        layout = CLI_LAYOUTS['big']
+        m, xff = rnd.pick(METHODS), 0x3f000000
+        lines = fill_ops(rnd, 's/i1/a.wsp', layout, m, xff, density=1.0, inconsistent=False)
+        lines += fill_ops(rnd, 'd/a.wsp', layout, m, xff, density=rnd.pick([0.0, 0.3]), inconsistent=False)
+        lines += copy_of([l for l in lines if ' d/a.wsp' in l], 'd/a.wsp', 'e/i1/sum.wsp')
+        if rnd.chance(0.5):
+            lines += ["snap d/a.wsp", "clicopy src=s:i1/a.wsp dest=d:a.wsp from=0 until=0 archive=-1 copynan=%d m=%d x=%08x layout=%s textout=full" % (
+                rnd.pick([0, 1]), m, xff, lay_csv(layout)), "disk d/a.wsp"]
+            observe_all(lines, 'd/a.wsp', layout)
+        else:
+            lines += ["snap e/i1/sum.wsp", "clisumcopy base=s item=i1 src=a.wsp destbase=e dest=sum.wsp from=0 until=0 archive=-1 m=%d x=%08x layout=%s textout=full" % (
+                m, xff, lay_csv(layout)), "disk e/i1/sum.wsp"]
+            observe_all(lines, 'e/i1/sum.wsp', layout)
+        cases.append({'id': 'c05-cli-%d' % c, 'lines': lines, 'tags': {'layout': 'big', 'ops': {'cli_failing_report': 1}}})
+    return cases
